@@ -33,6 +33,9 @@ type LayoutCase struct {
 	// OddNames: directory names that mean something to a shell but are plain names to the
 	// file system ($word, ${word}, a leading ~, a space, %41)
 	OddNames bool `json:"odd_directory_names,omitempty"`
+	// GitBelow: the directories below the project root hold a .git (directory or file): a
+	// nested clone, submodule or worktree is still inside the project
+	GitBelow int `json:"git_entries_below_root,omitempty"` // 0 none, 1 directory, 2 file
 	Violations []Violation `json:"violations,omitempty"`
 }
 
@@ -168,6 +171,15 @@ func runLayoutCase(lc LayoutCase) (viol []string, labels []string) {
 		start = filepath.Join(start, lc.sname(i))
 	}
 	_ = os.MkdirAll(start, 0o755)
+	if lc.GitBelow > 0 && start != project {
+		for d := start; d != project && len(d) > len(project); d = filepath.Dir(d) {
+			if lc.GitBelow == 1 {
+				_ = os.MkdirAll(filepath.Join(d, ".git"), 0o755)
+			} else {
+				_ = os.WriteFile(filepath.Join(d, ".git"), []byte("gitdir: ../.git/modules/x\n"), 0o644)
+			}
+		}
+	}
 	target := project
 	if lc.Nested {
 		nested := filepath.Join(project, lc.sname(0), "inner")
@@ -345,6 +357,11 @@ func runLayoutCase(lc LayoutCase) (viol []string, labels []string) {
 		}
 		for _, how := range hows {
 			var r Res
+			if lc.LockGone {
+				// init on a populated store whose lock file is missing (a fresh clone with the
+				// lock ignored): still an existing store
+				_ = os.Remove(filepath.Join(target, ".ergo", "lock"))
+			}
 			switch {
 			case how == "cwd":
 				r = Run(Cmd{Args: []string{"--json", "init"}, Dir: target})
@@ -436,6 +453,9 @@ func runLayoutCase(lc LayoutCase) (viol []string, labels []string) {
 	if lc.OddNames {
 		labels = append(labels, "directory_names_with_shell_metacharacters")
 	}
+	if lc.GitBelow > 0 {
+		labels = append(labels, "git_entry_in_directories_below_the_root")
+	}
 	return
 }
 
@@ -486,6 +506,9 @@ func TestC18(t *testing.T) {
 		lc.Mutation = oneOf(rt, []string{"new", "new", "plan", "set", "claim"}, "mutation")
 		lc.Drain = pct(rt, 45, "drain")
 		lc.OddNames = pct(rt, 35, "oddnames")
+		if lc.StartDepth > 0 && pct(rt, 25, "gitbelow") {
+			lc.GitBelow = 1 + uni(rt, 2, "gitbelow.kind")
+		}
 		viol, labels := runLayoutCase(lc)
 		if len(viol) > 0 {
 			var vs []Violation
